@@ -55,29 +55,32 @@ Qed.
 Lemma to_nat_succ_sub i i0 : i0 + 1 <= i -> N.to_nat (i - i0) = S (N.to_nat (i - (i0 + 1))).
 Proof. lia. Qed.
 
-Theorem find_idx_owner : forall ps idx i0 i cur k,
-  find_idx ps idx i0 = Some (i, cur, k) ->
+Theorem find_idx_owner : forall ps idx i0 i sl k,
+  find_idx ps idx i0 = Some (i, sl, k) ->
   i0 <= i /\ exists p, nth_error ps (N.to_nat (i - i0)) = Some p /\
-                       (if cur then k_cur p else k_prev p) = Some k /\ k_idx k = idx.
+                       get_slot p sl = Some k /\ k_idx k = idx.
 Proof.
-  induction ps as [|p t IH]; intros idx i0 i cur k; cbn [find_idx]; [discriminate|].
+  induction ps as [|p t IH]; intros idx i0 i sl k; cbn [find_idx]; [discriminate|].
   destruct (slot_hit idx (k_cur p)) as [kc|] eqn:Hc.
-  - intros H; inversion H; subst. apply slot_hit_some in Hc. destruct Hc as [Hc Hi].
-    split; [lia|]. exists p. rewrite N.sub_diag. cbn [N.to_nat nth_error].
-    split; [reflexivity|]. split; assumption.
-  - destruct (slot_hit idx (k_prev p)) as [kp|] eqn:Hp.
-    + intros H; inversion H; subst. apply slot_hit_some in Hp. destruct Hp as [Hp Hi].
-      split; [lia|]. exists p. rewrite N.sub_diag. cbn [N.to_nat nth_error].
-      split; [reflexivity|]. split; assumption.
-    + intros H. apply IH in H. destruct H as (Hle & q & Hn & Hs & Hi).
-      split; [lia|]. exists q. rewrite (to_nat_succ_sub i i0 Hle). cbn [nth_error].
-      split; [exact Hn|]. split; assumption.
+  { intros H; inversion H; subst. apply slot_hit_some in Hc. destruct Hc as [Hc Hi].
+    split; [lia|]. exists p. rewrite N.sub_diag. cbn [N.to_nat nth_error get_slot].
+    split; [reflexivity|]. split; assumption. }
+  destruct (slot_hit idx (k_prev p)) as [kp|] eqn:Hp.
+  { intros H; inversion H; subst. apply slot_hit_some in Hp. destruct Hp as [Hp Hi].
+    split; [lia|]. exists p. rewrite N.sub_diag. cbn [N.to_nat nth_error get_slot].
+    split; [reflexivity|]. split; assumption. }
+  destruct (slot_hit idx (k_next p)) as [kn|] eqn:Hx.
+  { intros H; inversion H; subst. apply slot_hit_some in Hx. destruct Hx as [Hx Hi].
+    split; [lia|]. exists p. rewrite N.sub_diag. cbn [N.to_nat nth_error get_slot].
+    split; [reflexivity|]. split; assumption. }
+  intros H. apply IH in H. destruct H as (Hle & q & Hn & Hs & Hi).
+  split; [lia|]. exists q. rewrite (to_nat_succ_sub i i0 Hle). cbn [nth_error].
+  split; [exact Hn|]. split; assumption.
 Qed.
 
-Lemma find_idx_owner0 ps idx i cur k :
-  find_idx ps idx 0 = Some (i, cur, k) ->
-  exists p, nth_error ps (N.to_nat i) = Some p /\
-            (if cur then k_cur p else k_prev p) = Some k /\ k_idx k = idx.
+Lemma find_idx_owner0 ps idx i sl k :
+  find_idx ps idx 0 = Some (i, sl, k) ->
+  exists p, nth_error ps (N.to_nat i) = Some p /\ get_slot p sl = Some k /\ k_idx k = idx.
 Proof.
   intros H. apply find_idx_owner in H. destruct H as (_ & p & Hn & Hs & Hi).
   rewrite N.sub_0_r in Hn. exists p. split; [exact Hn|]. split; assumption.
@@ -103,8 +106,8 @@ Definition wr (tbl : list entry) (i : N) (plain : list N) : option (N * list N) 
 Definition marked (k : keypair) (ctr : N) : keypair :=
   set_filter k {| seen := ctr :: seen (k_filter k); mx := N.max (mx (k_filter k)) ctr |}.
 
-Definition upd (st : state) (i : N) (cur : bool) (k : keypair) (ctr : N) : state :=
-  {| s_tbl := s_tbl st; s_peers := upd_slot (s_peers st) i cur (marked k ctr) |}.
+Definition upd (st : state) (i : N) (sl : slot) (k : keypair) (ctr : N) : state :=
+  {| s_tbl := s_tbl st; s_peers := upd_slot (s_peers st) i sl (marked k ctr) |}.
 
 Lemma gate_true plain : gate MessageTransportType (MessageTransportSize + blen plain) = true.
 Proof.
@@ -114,12 +117,12 @@ Proof.
   rewrite H. reflexivity.
 Qed.
 
-Lemma recv1_accept st idx key ctr plain i cur k :
-  find_idx (s_peers st) idx 0 = Some (i, cur, k) ->
+Lemma recv1_accept st idx key ctr plain i sl k :
+  find_idx (s_peers st) idx 0 = Some (i, sl, k) ->
   k_age k <= RejectAfterTime -> key = k_key k ->
   accept (k_filter k) ctr RejectAfterMessages = true ->
   recv1 st (Transport idx key false ctr plain) =
-  (upd st i cur k ctr, {| r_write := wr (s_tbl st) i plain; r_rx := Some (i, blen plain + MinMessageSize) |}).
+  (upd st i sl k ctr, {| r_write := wr (s_tbl st) i plain; r_rx := Some (i, blen plain + MinMessageSize) |}).
 Proof.
   intros Hf Hage Hkey Hacc. unfold recv1. rewrite gate_true. cbn [negb]. rewrite Hf.
   assert (Ha : (RejectAfterTime <? k_age k) = false) by (apply N.ltb_ge; exact Hage).
@@ -133,16 +136,16 @@ Qed.
 
 Lemma recv1_cases st d :
   recv1 st d = (st, nothing) \/
-  exists idx key ctr plain i cur k,
+  exists idx key ctr plain i sl k,
     d = Transport idx key false ctr plain /\
-    find_idx (s_peers st) idx 0 = Some (i, cur, k) /\
+    find_idx (s_peers st) idx 0 = Some (i, sl, k) /\
     k_age k <= RejectAfterTime /\ key = k_key k /\
     accept (k_filter k) ctr RejectAfterMessages = true /\
     recv1 st d =
-    (upd st i cur k ctr, {| r_write := wr (s_tbl st) i plain; r_rx := Some (i, blen plain + MinMessageSize) |}).
+    (upd st i sl k ctr, {| r_write := wr (s_tbl st) i plain; r_rx := Some (i, blen plain + MinMessageSize) |}).
 Proof.
   destruct d as [tw len|idx key tampered ctr plain]; [left; reflexivity|].
-  destruct (find_idx (s_peers st) idx 0) as [[[i cur] k]|] eqn:Hf.
+  destruct (find_idx (s_peers st) idx 0) as [[[i sl] k]|] eqn:Hf.
   2:{ left. unfold recv1. rewrite Hf. destruct (negb _); reflexivity. }
   destruct (RejectAfterTime <? k_age k) eqn:Ha.
   { left. unfold recv1. rewrite Hf, Ha. destruct (negb _); reflexivity. }
@@ -154,7 +157,7 @@ Proof.
   destruct (accept (k_filter k) ctr RejectAfterMessages) eqn:Hacc.
   2:{ left. unfold recv1. rewrite Hf, Ha, Hacc. cbn [negb]. destruct (negb _); [reflexivity|].
       destruct (_ || _); reflexivity. }
-  right. exists idx, key, ctr, plain, i, cur, k.
+  right. exists idx, key, ctr, plain, i, sl, k.
   apply N.ltb_ge in Ha.
   split; [reflexivity|]. split; [exact Hf|]. split; [exact Ha|]. split; [exact Ek|]. split; [exact Hacc|].
   apply recv1_accept; assumption.
@@ -162,17 +165,17 @@ Qed.
 
 Lemma recv1_transport_cases st idx key ctr plain :
   recv1 st (Transport idx key false ctr plain) = (st, nothing) \/
-  exists i cur k,
-    find_idx (s_peers st) idx 0 = Some (i, cur, k) /\
+  exists i sl k,
+    find_idx (s_peers st) idx 0 = Some (i, sl, k) /\
     k_age k <= RejectAfterTime /\ key = k_key k /\
     accept (k_filter k) ctr RejectAfterMessages = true /\
     recv1 st (Transport idx key false ctr plain) =
-    (upd st i cur k ctr, {| r_write := wr (s_tbl st) i plain; r_rx := Some (i, blen plain + MinMessageSize) |}).
+    (upd st i sl k ctr, {| r_write := wr (s_tbl st) i plain; r_rx := Some (i, blen plain + MinMessageSize) |}).
 Proof.
   destruct (recv1_cases st (Transport idx key false ctr plain))
-    as [Hn|(idx' & key' & c & plain' & i & cur & k & Hd & H)]; [left; exact Hn|].
+    as [Hn|(idx' & key' & c & plain' & i & sl & k & Hd & H)]; [left; exact Hn|].
   injection Hd as E1 E2 E3 E4. subst idx' key' c plain'.
-  right. exists i, cur, k. exact H.
+  right. exists i, sl, k. exact H.
 Qed.
 
 Lemma wr_some tbl i' plain i w :
@@ -193,9 +196,9 @@ Qed.
 
 Theorem tun_write_sound : forall st d st' r i w,
   recv1 st d = (st', r) -> r_write r = Some (i, w) ->
-  exists idx key ctr plain cur k f L src,
+  exists idx key ctr plain sl k f L src,
     d = Transport idx key false ctr plain /\
-    find_idx (s_peers st) idx 0 = Some (i, cur, k) /\
+    find_idx (s_peers st) idx 0 = Some (i, sl, k) /\
     k_age k <= RejectAfterTime /\ key = k_key k /\
     accept (k_filter k) ctr RejectAfterMessages = true /\
     ip_check plain = Some (f, L, src) /\ L = declared_len f plain /\ hdr_min f <= L /\ L <= blen plain /\
@@ -203,12 +206,12 @@ Theorem tun_write_sound : forall st d st' r i w,
     w = firstn (N.to_nat L) plain.
 Proof.
   intros st d st' r i w Hr Hw.
-  destruct (recv1_cases st d) as [Hn|(idx & key & ctr & plain & i' & cur & k & Hd & Hf & Hage & Hk & Hacc & Hc)].
+  destruct (recv1_cases st d) as [Hn|(idx & key & ctr & plain & i' & sl & k & Hd & Hf & Hage & Hk & Hacc & Hc)].
   - rewrite Hn in Hr. inversion Hr; subst. discriminate.
   - rewrite Hc in Hr. inversion Hr; subst st' r. clear Hr. cbn [r_write] in Hw.
     apply wr_some in Hw. destruct Hw as (Ei & _ & f & L & src & Hip & Hl & Hwf). subst i'.
     destruct (ip_check_sound plain f L src Hip) as (H1 & H2 & H3).
-    exists idx, key, ctr, plain, cur, k, f, L, src.
+    exists idx, key, ctr, plain, sl, k, f, L, src.
     repeat (split; [assumption|]).
     split.
     + pose proof (lookup_is_lpm (s_tbl st) f (be_val src)) as Hs. rewrite Hl in Hs. exact Hs.
@@ -236,10 +239,10 @@ Qed.
 Corollary batch_writes_sound_full : forall l st st' rs,
   run recv1 st l = (st', rs) ->
   forall r i w, In r rs -> r_write r = Some (i, w) ->
-  exists pre post idx key ctr plain cur k f L src,
+  exists pre post idx key ctr plain sl k f L src,
     l = pre ++ Transport idx key false ctr plain :: post /\
     let s1 := final recv1 st pre in
-    find_idx (s_peers s1) idx 0 = Some (i, cur, k) /\
+    find_idx (s_peers s1) idx 0 = Some (i, sl, k) /\
     k_age k <= RejectAfterTime /\ key = k_key k /\
     accept (k_filter k) ctr RejectAfterMessages = true /\
     ip_check plain = Some (f, L, src) /\ L = declared_len f plain /\ hdr_min f <= L /\ L <= blen plain /\
@@ -249,8 +252,8 @@ Proof.
   intros l st st' rs Hrun r i w Hin Hw.
   destruct (batch_writes_sound l st st' rs Hrun r i w Hin Hw) as (pre & d & post & s1 & s2 & El & Es & Hd).
   destruct (tun_write_sound s1 d s2 r i w Hd Hw)
-    as (idx & key & ctr & plain & cur & k & f & L & src & Ed & H).
-  subst d s1. exists pre, post, idx, key, ctr, plain, cur, k, f, L, src.
+    as (idx & key & ctr & plain & sl & k & f & L & src & Ed & H).
+  subst d s1. exists pre, post, idx, key, ctr, plain, sl, k, f, L, src.
   split; [exact El|]. exact H.
 Qed.
 
@@ -259,7 +262,7 @@ Theorem keepalive_writes_nothing : forall st idx key t ctr,
 Proof.
   intros st idx key t ctr.
   destruct (recv1_cases st (Transport idx key t ctr []))
-    as [Hn|(idx' & key' & ctr' & plain & i & cur & k & Hd & _ & _ & _ & _ & Hc)].
+    as [Hn|(idx' & key' & ctr' & plain & i & sl & k & Hd & _ & _ & _ & _ & Hc)].
   - rewrite Hn. reflexivity.
   - rewrite Hc. inversion Hd; subst. reflexivity.
 Qed.
@@ -271,23 +274,23 @@ Theorem at_most_one_write : forall st d,
   end.
 Proof.
   intros st d.
-  destruct (recv1_cases st d) as [Hn|(idx & key & ctr & plain & i & cur & k & _ & _ & _ & _ & _ & Hc)].
+  destruct (recv1_cases st d) as [Hn|(idx & key & ctr & plain & i & sl & k & _ & _ & _ & _ & _ & Hc)].
   - rewrite Hn. cbn [snd nothing r_write]. exact I.
   - rewrite Hc. cbn [snd r_write r_rx]. destruct (wr (s_tbl st) i plain); [discriminate|exact I].
 Qed.
 
 (* ------------------------------------------------------------------ completeness *)
 
-Theorem accepted_is_written : forall st idx key ctr plain i cur k f L src,
-  find_idx (s_peers st) idx 0 = Some (i, cur, k) ->
+Theorem accepted_is_written : forall st idx key ctr plain i sl k f L src,
+  find_idx (s_peers st) idx 0 = Some (i, sl, k) ->
   k_age k <= RejectAfterTime -> key = k_key k ->
   accept (k_filter k) ctr RejectAfterMessages = true ->
   plain <> [] -> ip_check plain = Some (f, L, src) ->
   lookup (s_tbl st) f (be_val src) = Some i ->
   r_write (snd (recv1 st (Transport idx key false ctr plain))) = Some (i, firstn (N.to_nat L) plain).
 Proof.
-  intros st idx key ctr plain i cur k f L src Hf Hage Hk Hacc Hne Hip Hl.
-  rewrite (recv1_accept st idx key ctr plain i cur k Hf Hage Hk Hacc). cbn [snd r_write].
+  intros st idx key ctr plain i sl k f L src Hf Hage Hk Hacc Hne Hip Hl.
+  rewrite (recv1_accept st idx key ctr plain i sl k Hf Hage Hk Hacc). cbn [snd r_write].
   unfold wr. destruct plain as [|b0 rest]; [contradiction Hne; reflexivity|].
   rewrite Hip, Hl, N.eqb_refl. reflexivity.
 Qed.
@@ -298,13 +301,14 @@ Definition holds_key (key : N) (k : option keypair) : bool :=
   match k with Some x => k_key x =? key | None => false end.
 Definition holders (key : N) (st : state) : nat :=
   length (List.filter (fun p => holds_key key (k_cur p)) (s_peers st)) +
-  length (List.filter (fun p => holds_key key (k_prev p)) (s_peers st)).
+  length (List.filter (fun p => holds_key key (k_prev p)) (s_peers st)) +
+  length (List.filter (fun p => holds_key key (k_next p)) (s_peers st)).
 Definition fresh_keys (key : N) (evs : list event) : Prop :=
-  forall p idx k, In (Handshake p idx k) evs -> k <> key.
+  forall p idx k, In (Handshake p idx k) evs \/ In (HandshakeUnconf p idx k) evs -> k <> key.
 
-(* every retained keypair with this key has already accepted ctr *)
+(* every retained keypair (previous, current, next) with this key has already accepted ctr *)
 Definition InvL (key ctr : N) (ps : list peer) : Prop :=
-  forall p, In p ps -> forall k, (k_cur p = Some k \/ k_prev p = Some k) -> k_key k = key ->
+  forall p, In p ps -> forall sl k, get_slot p sl = Some k -> k_key k = key ->
   mem ctr (seen (k_filter k)) = true.
 Definition Inv (key ctr : N) (st : state) : Prop := InvL key ctr (s_peers st).
 
@@ -315,24 +319,58 @@ Proof.
   - intros [H|H]; [right; left; exact H|]. apply IH in H. destruct H; [left|right; right]; assumption.
 Qed.
 
+Lemma nth_error_set_nth_same {A} (l : list A) : forall n v p,
+  nth_error l n = Some p -> nth_error (set_nth l n v) n = Some v.
+Proof.
+  induction l as [|h t IH]; intros [|n] v p H; cbn [nth_error set_nth] in *; try discriminate.
+  - reflexivity.
+  - apply (IH n v p H).
+Qed.
+
 Lemma mem_head c l : mem c (c :: l) = true.
 Proof. unfold mem. cbn [existsb]. rewrite N.eqb_refl. reflexivity. Qed.
 
 Lemma mem_tail c x l : mem c l = true -> mem c (x :: l) = true.
 Proof. unfold mem. cbn [existsb]. intros H. rewrite H. apply Bool.orb_true_r. Qed.
 
+(* what upd_slot puts at position i *)
+Definition put (p : peer) (sl : slot) (k : keypair) : peer :=
+  match sl with
+  | SCur => {| k_prev := k_prev p; k_cur := Some k; k_next := k_next p |}
+  | SPrev => {| k_prev := Some k; k_cur := k_cur p; k_next := k_next p |}
+  | SNext => {| k_prev := k_cur p; k_cur := Some k; k_next := None |}
+  end.
+
+(* a keypair of the new peer is the one put back, or sat in ANOTHER slot of the old peer *)
+Lemma put_slots p sl k' s2 k1 :
+  get_slot (put p sl k') s2 = Some k1 ->
+  k1 = k' \/ exists s3, s3 <> sl /\ get_slot p s3 = Some k1.
+Proof.
+  destruct sl, s2; cbn [put get_slot k_prev k_cur k_next]; intros H;
+    try (left; inversion H; reflexivity); try discriminate.
+  - right. exists SCur. split; [discriminate|exact H].
+  - right. exists SNext. split; [discriminate|exact H].
+  - right. exists SPrev. split; [discriminate|exact H].
+  - right. exists SNext. split; [discriminate|exact H].
+  - right. exists SCur. split; [discriminate|exact H].
+Qed.
+
 (* --- counting holders *)
 
+Definition b2n (b : bool) : nat := if b then 1%nat else 0%nat.
 Definition wt (key : N) (p : peer) : nat :=
-  ((if holds_key key (k_cur p) then 1 else 0) + (if holds_key key (k_prev p) then 1 else 0))%nat.
+  (b2n (holds_key key (get_slot p SCur)) + b2n (holds_key key (get_slot p SPrev)) +
+   b2n (holds_key key (get_slot p SNext)))%nat.
 Definition cnt (key : N) (ps : list peer) : nat :=
   (length (List.filter (fun p => holds_key key (k_cur p)) ps) +
-   length (List.filter (fun p => holds_key key (k_prev p)) ps))%nat.
+   length (List.filter (fun p => holds_key key (k_prev p)) ps) +
+   length (List.filter (fun p => holds_key key (k_next p)) ps))%nat.
 
 Lemma cnt_cons key p t : cnt key (p :: t) = (wt key p + cnt key t)%nat.
 Proof.
-  unfold cnt, wt. cbn [List.filter].
-  destruct (holds_key key (k_cur p)), (holds_key key (k_prev p)); cbn [length]; lia.
+  unfold cnt, wt, b2n. cbn [List.filter get_slot].
+  destruct (holds_key key (k_cur p)), (holds_key key (k_prev p)), (holds_key key (k_next p));
+    cbn [length]; lia.
 Qed.
 
 Lemma cnt_zero key t q : cnt key t = 0%nat -> In q t -> wt key q = 0%nat.
@@ -363,56 +401,59 @@ Proof.
     apply (IH n p v Hn); [lia|exact Hw|exact Hin].
 Qed.
 
-Lemma wt_zero key q k :
-  wt key q = 0%nat -> (k_cur q = Some k \/ k_prev q = Some k) -> k_key k = key -> False.
+Lemma holds_slot key p sl k :
+  get_slot p sl = Some k -> k_key k = key -> b2n (holds_key key (get_slot p sl)) = 1%nat.
 Proof.
-  unfold wt. intros Hw [H|H] Hk; rewrite H in Hw; cbn [holds_key] in Hw;
-    apply N.eqb_eq in Hk; rewrite Hk in Hw.
-  - destruct (holds_key key (k_prev q)); discriminate.
-  - destruct (holds_key key (k_cur q)); discriminate.
+  intros H Hk. rewrite H. cbn [holds_key]. apply N.eqb_eq in Hk. rewrite Hk. reflexivity.
 Qed.
 
-(* after an accepted datagram the slot that find_idx found holds ctr, and with
-   at most one holder of the key that is all there is to show *)
-Lemma accepted_marks_slot ps idx i cur k ctr :
-  find_idx ps idx 0 = Some (i, cur, k) ->
+Lemma wt_one key p sl k : get_slot p sl = Some k -> k_key k = key -> (1 <= wt key p)%nat.
+Proof.
+  intros H Hk. pose proof (holds_slot key p sl k H Hk) as H1. unfold wt. destruct sl; lia.
+Qed.
+
+Lemma wt_zero key q sl k : wt key q = 0%nat -> get_slot q sl = Some k -> k_key k = key -> False.
+Proof. intros Hw H Hk. pose proof (wt_one key q sl k H Hk). lia. Qed.
+
+Lemma wt_two key p s1 k1 s2 k2 :
+  get_slot p s1 = Some k1 -> k_key k1 = key -> get_slot p s2 = Some k2 -> k_key k2 = key ->
+  s2 <> s1 -> (2 <= wt key p)%nat.
+Proof.
+  intros H1 Hk1 H2 Hk2 Hne.
+  pose proof (holds_slot key p s1 k1 H1 Hk1) as A. pose proof (holds_slot key p s2 k2 H2 Hk2) as B.
+  unfold wt. destruct s1, s2; try (exfalso; apply Hne; reflexivity); lia.
+Qed.
+
+(* after an accepted datagram the slot that find_idx found is put back holding ctr *)
+Lemma accepted_marks_slot ps idx i sl k ctr :
+  find_idx ps idx 0 = Some (i, sl, k) ->
   exists p, nth_error ps (N.to_nat i) = Some p /\
-    upd_slot ps i cur (marked k ctr) =
-    set_nth ps (N.to_nat i)
-      (if cur then {| k_prev := k_prev p; k_cur := Some (marked k ctr) |}
-              else {| k_prev := Some (marked k ctr); k_cur := k_cur p |}) /\
-    (if cur then k_cur p else k_prev p) = Some k /\
+    upd_slot ps i sl (marked k ctr) = set_nth ps (N.to_nat i) (put p sl (marked k ctr)) /\
+    get_slot p sl = Some k /\ k_idx k = idx /\
     mem ctr (seen (k_filter (marked k ctr))) = true.
 Proof.
-  intros Hf. apply find_idx_owner0 in Hf. destruct Hf as (p & Hn & Hs & _).
-  exists p. split; [exact Hn|]. split; [unfold upd_slot; rewrite Hn; reflexivity|].
-  split; [exact Hs|]. unfold marked, set_filter. cbn [k_filter seen]. apply mem_head.
+  intros Hf. apply find_idx_owner0 in Hf. destruct Hf as (p & Hn & Hs & Hi).
+  exists p. split; [exact Hn|]. split; [unfold upd_slot, put; rewrite Hn; reflexivity|].
+  split; [exact Hs|]. split; [exact Hi|]. unfold marked, set_filter. cbn [k_filter seen]. apply mem_head.
 Qed.
 
-Lemma inv_established key ctr st idx i cur k :
+Lemma inv_established key ctr st idx i sl k :
   (holders key st <= 1)%nat ->
-  find_idx (s_peers st) idx 0 = Some (i, cur, k) -> k_key k = key ->
-  Inv key ctr (upd st i cur k ctr).
+  find_idx (s_peers st) idx 0 = Some (i, sl, k) -> k_key k = key ->
+  Inv key ctr (upd st i sl k ctr).
 Proof.
   intros Hh Hf Hk. change (cnt key (s_peers st) <= 1)%nat in Hh.
   unfold Inv, upd. cbn [s_peers].
-  destruct (accepted_marks_slot (s_peers st) idx i cur k ctr Hf) as (p & Hn & Hu & Hs & Hm).
+  destruct (accepted_marks_slot (s_peers st) idx i sl k ctr Hf) as (p & Hn & Hu & Hs & _ & Hm).
   rewrite Hu. clear Hu.
   pose proof (cnt_nth key (s_peers st) _ p Hn) as Hwp.
-  assert (Hw1 : (1 <= wt key p)%nat).
-  { unfold wt. apply N.eqb_eq in Hk. destruct cur; rewrite Hs; cbn [holds_key]; rewrite Hk; lia. }
-  intros q Hin k1 Hslot Hk1.
+  pose proof (wt_one key p sl k Hs Hk) as Hw1.
+  intros q Hin s2 k1 Hslot Hk1.
   apply (cnt_others key (s_peers st) _ p _ Hn Hh Hw1) in Hin. destruct Hin as [Hq|Hq].
-  2:{ exfalso. exact (wt_zero key q k1 Hq Hslot Hk1). }
-  subst q. assert (Hwt : wt key p = 1%nat) by lia. clear Hwp Hw1.
-  unfold wt in Hwt. apply N.eqb_eq in Hk.
-  destruct cur; cbn [k_cur k_prev] in Hslot; rewrite Hs in Hwt; cbn [holds_key] in Hwt; rewrite Hk in Hwt.
-  - destruct Hslot as [E|E].
-    + inversion E; subst k1. exact Hm.
-    + exfalso. rewrite E in Hwt. cbn [holds_key] in Hwt. apply N.eqb_eq in Hk1. rewrite Hk1 in Hwt. discriminate.
-  - destruct Hslot as [E|E].
-    + exfalso. rewrite E in Hwt. cbn [holds_key] in Hwt. apply N.eqb_eq in Hk1. rewrite Hk1 in Hwt. discriminate.
-    + inversion E; subst k1. exact Hm.
+  2:{ exfalso. exact (wt_zero key q s2 k1 Hq Hslot Hk1). }
+  subst q. apply put_slots in Hslot. destruct Hslot as [E|(s3 & Hne & H3)].
+  - subst k1. exact Hm.
+  - exfalso. pose proof (wt_two key p sl k s3 k1 Hs Hk H3 Hk1 Hne). lia.
 Qed.
 
 (* --- preservation *)
@@ -420,23 +461,18 @@ Qed.
 Lemma inv_recv1 key ctr st d : Inv key ctr st -> Inv key ctr (fst (recv1 st d)).
 Proof.
   intros HI.
-  destruct (recv1_cases st d) as [Hn|(idx & key' & c & plain & i & cur & k & _ & Hf & _ & _ & _ & Hc)].
+  destruct (recv1_cases st d) as [Hn|(idx & key' & c & plain & i & sl & k & _ & Hf & _ & _ & _ & Hc)].
   - rewrite Hn. exact HI.
   - rewrite Hc. cbn [fst]. unfold Inv, upd. cbn [s_peers].
-    destruct (accepted_marks_slot (s_peers st) idx i cur k c Hf) as (p & Hn & Hu & Hs & _).
+    destruct (accepted_marks_slot (s_peers st) idx i sl k c Hf) as (p & Hn & Hu & Hs & _ & _).
     rewrite Hu. clear Hu.
     pose proof (nth_error_In _ _ Hn) as Hp.
-    intros q Hin k1 Hslot Hk1. apply in_set_nth in Hin. destruct Hin as [Hq|Hq].
-    2:{ exact (HI q Hq k1 Hslot Hk1). }
-    subst q.
-    assert (Hmk : k_key k = key -> mem ctr (seen (k_filter (marked k c))) = true).
-    { intros Ek. unfold marked, set_filter. cbn [k_filter seen]. apply mem_tail.
-      apply (HI p Hp k); [|exact Ek]. destruct cur; [left|right]; exact Hs. }
-    destruct cur; cbn [k_cur k_prev] in Hslot; destruct Hslot as [E|E].
-    + inversion E; subst k1. apply Hmk. exact Hk1.
-    + apply (HI p Hp k1); [right; exact E|exact Hk1].
-    + apply (HI p Hp k1); [left; exact E|exact Hk1].
-    + inversion E; subst k1. apply Hmk. exact Hk1.
+    intros q Hin s2 k1 Hslot Hk1. apply in_set_nth in Hin. destruct Hin as [Hq|Hq].
+    2:{ exact (HI q Hq s2 k1 Hslot Hk1). }
+    subst q. apply put_slots in Hslot. destruct Hslot as [E|(s3 & _ & H3)].
+    + subst k1. unfold marked, set_filter in *. cbn [k_filter seen k_key] in *. apply mem_tail.
+      exact (HI p Hp sl k Hs Hk1).
+    + exact (HI p Hp s3 k1 H3 Hk1).
 Qed.
 
 Lemma age_kp_some ns ko k :
@@ -446,28 +482,45 @@ Proof.
   intros H; inversion H; subst. exists x. cbn [k_key k_filter]. repeat split.
 Qed.
 
+Definition empty_peer : peer := {| k_prev := None; k_cur := None; k_next := None |}.
+
 Theorem inv_preserved : forall key ctr st ev,
   Inv key ctr st -> fresh_keys key [ev] -> Inv key ctr (fst (step st ev)).
 Proof.
-  intros key ctr st ev HI Hfr. destruct ev as [p idx k0|p ns|l]; cbn [step fst].
-  - assert (Hne : k0 <> key) by (apply (Hfr p idx k0); left; reflexivity).
+  intros key ctr st ev HI Hfr. destruct ev as [p idx k0|p idx k0| |p ns|l]; cbn [step fst].
+  - assert (Hne : k0 <> key) by (apply (Hfr p idx k0); left; left; reflexivity).
     unfold Inv. cbn [s_peers].
     destruct (nth_error (s_peers st) (N.to_nat p)) as [x|] eqn:Hn; [|exact HI].
     pose proof (nth_error_In _ _ Hn) as Hx.
-    intros q Hin k1 Hslot Hk1. apply in_set_nth in Hin. destruct Hin as [Hq|Hq].
-    2:{ exact (HI q Hq k1 Hslot Hk1). }
-    subst q. cbn [k_cur k_prev] in Hslot. destruct Hslot as [E|E].
-    + inversion E; subst k1. cbn [k_key] in Hk1. contradiction.
-    + apply (HI x Hx k1); [left; exact E|exact Hk1].
+    intros q Hin s2 k1 Hslot Hk1. apply in_set_nth in Hin. destruct Hin as [Hq|Hq].
+    2:{ exact (HI q Hq s2 k1 Hslot Hk1). }
+    subst q. destruct s2; cbn [get_slot k_cur k_prev k_next] in Hslot.
+    + exact (HI x Hx SCur k1 Hslot Hk1).
+    + inversion Hslot; subst k1. cbn [k_key] in Hk1. contradiction.
+    + discriminate.
+  - assert (Hne : k0 <> key) by (apply (Hfr p idx k0); right; left; reflexivity).
+    unfold Inv. cbn [s_peers].
+    destruct (nth_error (s_peers st) (N.to_nat p)) as [x|] eqn:Hn; [|exact HI].
+    pose proof (nth_error_In _ _ Hn) as Hx.
+    intros q Hin s2 k1 Hslot Hk1. apply in_set_nth in Hin. destruct Hin as [Hq|Hq].
+    2:{ exact (HI q Hq s2 k1 Hslot Hk1). }
+    subst q. destruct s2; cbn [get_slot k_cur k_prev k_next] in Hslot.
+    + discriminate.
+    + exact (HI x Hx SCur k1 Hslot Hk1).
+    + inversion Hslot; subst k1. cbn [k_key] in Hk1. contradiction.
+  - unfold Inv. cbn [s_peers]. intros q Hin s2 k1 Hslot Hk1.
+    apply in_map_iff in Hin. destruct Hin as (x & Eq & _). subst q.
+    destruct s2; discriminate.
   - unfold Inv. cbn [s_peers].
     destruct (nth_error (s_peers st) (N.to_nat p)) as [x|] eqn:Hn; [|exact HI].
     pose proof (nth_error_In _ _ Hn) as Hx.
-    intros q Hin k1 Hslot Hk1. apply in_set_nth in Hin. destruct Hin as [Hq|Hq].
-    2:{ exact (HI q Hq k1 Hslot Hk1). }
-    subst q. cbn [k_cur k_prev] in Hslot. destruct Hslot as [E|E];
-      apply age_kp_some in E; destruct E as (y & Ey & Eky & Efy); rewrite Efy; rewrite Eky in Hk1.
-    + apply (HI x Hx y); [left; exact Ey|exact Hk1].
-    + apply (HI x Hx y); [right; exact Ey|exact Hk1].
+    intros q Hin s2 k1 Hslot Hk1. apply in_set_nth in Hin. destruct Hin as [Hq|Hq].
+    2:{ exact (HI q Hq s2 k1 Hslot Hk1). }
+    subst q. destruct s2; cbn [get_slot k_cur k_prev k_next] in Hslot;
+      apply age_kp_some in Hslot; destruct Hslot as (y & Ey & Eky & Efy); rewrite Efy; rewrite Eky in Hk1.
+    + exact (HI x Hx SPrev y Ey Hk1).
+    + exact (HI x Hx SCur y Ey Hk1).
+    + exact (HI x Hx SNext y Ey Hk1).
   - change (fst (run recv1 st l)) with (final recv1 st l).
     apply (final_inv recv1 (Inv key ctr)); [|exact HI].
     intros s o Hs. apply inv_recv1. exact Hs.
@@ -478,9 +531,9 @@ Lemma inv_final key ctr : forall evs st,
 Proof.
   induction evs as [|ev evs IH]; intros st Hfr HI; unfold final; cbn [run]; [exact HI|].
   assert (H1 : fresh_keys key [ev]).
-  { intros p idx k [E|[]]. apply (Hfr p idx k). left; exact E. }
+  { intros p idx k [[E|[]]|[E|[]]]; apply (Hfr p idx k); [left|right]; left; exact E. }
   assert (H2 : fresh_keys key evs).
-  { intros p idx k Hin. apply (Hfr p idx k). right; exact Hin. }
+  { intros p idx k [Hin|Hin]; apply (Hfr p idx k); [left|right]; right; exact Hin. }
   pose proof (inv_preserved key ctr st ev HI H1) as HI1.
   destruct (step st ev) as [s1 r]. cbn [fst] in HI1.
   specialize (IH s1 H2 HI1). unfold final in IH. destruct (run step s1 evs). exact IH.
@@ -493,12 +546,12 @@ Theorem exactly_once_inv : forall key ctr st idx plain,
 Proof.
   intros key ctr st idx plain HI.
   destruct (recv1_transport_cases st idx key ctr plain)
-    as [Hn|(i & cur & k & Hf & _ & Hk & Hacc & _)]; [exact Hn|].
+    as [Hn|(i & sl & k & Hf & _ & Hk & Hacc & _)]; [exact Hn|].
   exfalso.
   apply find_idx_owner0 in Hf. destruct Hf as (p & Hn & Hs & _).
   pose proof (nth_error_In _ _ Hn) as Hp.
   assert (Hm : mem ctr (seen (k_filter k)) = true).
-  { apply (HI p Hp k); [|symmetry; exact Hk]. destruct cur; [left|right]; exact Hs. }
+  { apply (HI p Hp sl k Hs). symmetry; exact Hk. }
   unfold accept in Hacc. rewrite Hm in Hacc. cbn [negb] in Hacc.
   rewrite Bool.andb_false_r in Hacc. discriminate.
 Qed.
@@ -514,10 +567,10 @@ Proof.
   intros st idx key ctr plain st' r Hh Hr Hrx evs Hfr st''.
   apply exactly_once_inv. unfold st''. apply inv_final; [exact Hfr|].
   destruct (recv1_transport_cases st idx key ctr plain)
-    as [Hn|(i & cur & k & Hf & _ & Hk & _ & Hc)].
+    as [Hn|(i & sl & k & Hf & _ & Hk & _ & Hc)].
   - exfalso. rewrite Hn in Hr. inversion Hr; subst. apply Hrx. reflexivity.
   - rewrite Hc in Hr. inversion Hr; subst st'.
-    apply (inv_established key ctr st idx i cur k Hh Hf). symmetry; exact Hk.
+    apply (inv_established key ctr st idx i sl k Hh Hf). symmetry; exact Hk.
 Qed.
 
 (* the immediate corollary: the very next presentation of the same datagram is dropped *)
@@ -529,5 +582,103 @@ Corollary replayed_rejected_immediately : forall st idx key ctr plain st' r,
 Proof.
   intros st idx key ctr plain st' r Hh Hr Hrx.
   apply (exactly_once st idx key ctr plain st' r Hh Hr Hrx []).
-  intros p i k [].
+  intros p i k [[]|[]].
+Qed.
+
+(* ------------------------------------------------------------------ restart (Down/Up) *)
+
+Definition AllEmpty (st : state) : Prop := forall p, In p (s_peers st) -> p = empty_peer.
+
+Lemma find_idx_empty ps idx : forall i0,
+  (forall p, In p ps -> p = empty_peer) -> find_idx ps idx i0 = None.
+Proof.
+  induction ps as [|p t IH]; intros i0 H; cbn [find_idx]; [reflexivity|].
+  rewrite (H p (or_introl eq_refl)). cbn [empty_peer k_cur k_prev k_next slot_hit].
+  apply IH. intros q Hq. apply H. right; exact Hq.
+Qed.
+
+Lemma recv1_all_empty st d : AllEmpty st -> recv1 st d = (st, nothing).
+Proof.
+  intros HE.
+  destruct (recv1_cases st d) as [Hn|(idx & key & c & plain & i & sl & k & _ & Hf & _)]; [exact Hn|].
+  rewrite (find_idx_empty (s_peers st) idx 0 HE) in Hf. discriminate.
+Qed.
+
+Lemma restart_all_empty st : AllEmpty (fst (step st Restart)).
+Proof.
+  unfold AllEmpty. cbn [step fst s_peers]. intros p Hin.
+  apply in_map_iff in Hin. destruct Hin as (x & E & _). symmetry; exact E.
+Qed.
+
+Theorem restart_drops_all : forall st d,
+  snd (recv1 (fst (step st Restart)) d) = nothing /\
+  fst (recv1 (fst (step st Restart)) d) = fst (step st Restart).
+Proof.
+  intros st d. rewrite (recv1_all_empty _ d (restart_all_empty st)). split; reflexivity.
+Qed.
+
+Lemma all_empty_step st ev :
+  AllEmpty st -> (forall p i k, ev <> Handshake p i k /\ ev <> HandshakeUnconf p i k) ->
+  AllEmpty (fst (step st ev)).
+Proof.
+  intros HE Hne. destruct ev as [p idx k0|p idx k0| |p ns|l].
+  - exfalso. apply (proj1 (Hne p idx k0)). reflexivity.
+  - exfalso. apply (proj2 (Hne p idx k0)). reflexivity.
+  - apply restart_all_empty.
+  - unfold AllEmpty. cbn [step fst s_peers].
+    destruct (nth_error (s_peers st) (N.to_nat p)) as [x|] eqn:Hn; [|exact HE].
+    pose proof (HE x (nth_error_In _ _ Hn)) as Ex.
+    intros q Hin. apply in_set_nth in Hin. destruct Hin as [Hq|Hq]; [|exact (HE q Hq)].
+    subst q x. reflexivity.
+  - cbn [step]. change (fst (run recv1 st l)) with (final recv1 st l).
+    apply (final_inv recv1 AllEmpty); [|exact HE].
+    intros s o Hs. rewrite (recv1_all_empty s o Hs). exact Hs.
+Qed.
+
+Lemma all_empty_final : forall evs st,
+  AllEmpty st ->
+  (forall p i k, ~ In (Handshake p i k) evs /\ ~ In (HandshakeUnconf p i k) evs) ->
+  AllEmpty (final step st evs).
+Proof.
+  induction evs as [|ev evs IH]; intros st HE Hno; unfold final; cbn [run]; [exact HE|].
+  assert (H1 : forall p i k, ev <> Handshake p i k /\ ev <> HandshakeUnconf p i k).
+  { intros p i k. destruct (Hno p i k) as [A B].
+    split; intros E; [apply A|apply B]; left; exact E. }
+  assert (H2 : forall p i k, ~ In (Handshake p i k) evs /\ ~ In (HandshakeUnconf p i k) evs).
+  { intros p i k. destruct (Hno p i k) as [A B].
+    split; intros E; [apply A|apply B]; right; exact E. }
+  pose proof (all_empty_step st ev HE H1) as HE1.
+  destruct (step st ev) as [s1 r]. cbn [fst] in HE1.
+  specialize (IH s1 HE1 H2). unfold final in IH. destruct (run step s1 evs). exact IH.
+Qed.
+
+Theorem restart_then_only_new : forall st evs d,
+  (forall p i k, ~ In (Handshake p i k) evs /\ ~ In (HandshakeUnconf p i k) evs) ->
+  snd (recv1 (final step (fst (step st Restart)) evs) d) = nothing.
+Proof.
+  intros st evs d Hno.
+  rewrite (recv1_all_empty _ d (all_empty_final evs _ (restart_all_empty st) Hno)). reflexivity.
+Qed.
+
+(* ------------------------------------------------------------------ confirmation by data *)
+
+Theorem unconfirmed_key_accepts_and_promotes : forall st idx key ctr plain i k,
+  find_idx (s_peers st) idx 0 = Some (i, SNext, k) ->
+  k_age k <= RejectAfterTime -> key = k_key k ->
+  accept (k_filter k) ctr RejectAfterMessages = true ->
+  exists p p',
+    nth_error (s_peers st) (N.to_nat i) = Some p /\
+    nth_error (s_peers (fst (recv1 st (Transport idx key false ctr plain)))) (N.to_nat i) = Some p' /\
+    k_prev p' = k_cur p /\ k_next p' = None /\
+    exists k', k_cur p' = Some k' /\ k_idx k' = idx /\ k_key k' = key.
+Proof.
+  intros st idx key ctr plain i k Hf Hage Hk Hacc.
+  rewrite (recv1_accept st idx key ctr plain i SNext k Hf Hage Hk Hacc). cbn [fst].
+  unfold upd. cbn [s_peers].
+  destruct (accepted_marks_slot (s_peers st) idx i SNext k ctr Hf) as (p & Hn & Hu & _ & Hi & _).
+  rewrite Hu. exists p, (put p SNext (marked k ctr)).
+  split; [exact Hn|]. split; [apply (nth_error_set_nth_same _ _ _ p Hn)|].
+  cbn [put k_prev k_cur k_next]. split; [reflexivity|]. split; [reflexivity|].
+  exists (marked k ctr). split; [reflexivity|].
+  unfold marked, set_filter. cbn [k_idx k_key]. split; [exact Hi|symmetry; exact Hk].
 Qed.
